@@ -1052,5 +1052,25 @@ def rule_weighted_fidelity(ctx: Ctx) -> None:
                      f"mixture with one branch is not a normalised pure state after photon loss (its weight is the survival probability), so the "
                      f"reported fidelity is too large by 1/weight and differs from the density-matrix backend's", func="Infidelity.evaluate",
                      construct="Infidelity.evaluate: branch fidelity not weighted by its probability")
+    # a per-branch *overlap* (inner_product) is not a fidelity: the square is missing
+    for c in [x for x in ast.walk(fn) if isinstance(x, ast.Call) and (call_name(x) or "").split(".")[-1] == "inner_product" and len(x.args) >= 2]:
+        t = c.args[1]
+        over_mixture = False
+        p_ = parent(c)
+        while p_ is not None and p_ is not fn:
+            gens = p_.generators if isinstance(p_, (ast.ListComp, ast.GeneratorExp)) else ([p_] if isinstance(p_, ast.For) else [])
+            for g in gens:
+                if is_mixture(g.iter):
+                    over_mixture = True
+            p_ = parent(p_)
+        sq = parent(c)
+        squared = isinstance(sq, ast.BinOp) and isinstance(sq.op, ast.Pow) or (isinstance(sq, ast.Call) and (call_name(sq) or "") in ("np.abs", "abs")
+                                                                              and isinstance(parent(sq), ast.BinOp) and isinstance(parent(sq).op, ast.Pow))
+        if over_mixture and not squared:
+            n += 1
+            ctx.fail("weight.fidelity", m, c,
+                     f"Infidelity.evaluate sums `{short(c)}` over the branches of the mixture: that is the overlap |<t|psi_i>|, not the fidelity "
+                     f"|<t|psi_i>|^2 — a branch with overlap 1/sqrt2 contributes 0.707 p_i instead of 0.5 p_i", func="Infidelity.evaluate",
+                     construct="Infidelity.evaluate: branch overlap not squared")
     if n == 0:
         raise AnalysisError("Infidelity.evaluate: no per-branch stabilizer fidelity found")
